@@ -59,9 +59,8 @@ def run(chk):
             try:
                 dE = dag.diff(E, "a1")
             except dag.Undecidable as e:
-                chk.fail("kernel-solves-dglap", disp.qname, f"no derivative rule for an operation in the kernel ({e}) ({inst})",
-                         where=disp.where, instance=inst)
-                continue
+                # not a verdict on the kernel: the analysis lacks a rule
+                chk.need(False, f"no derivative rule for an operation in the kernel ({e}) ({inst})")
             res = dag.sub(dag.mul(beta_a, dE), dag.mul(gamma_a, E))
             ok, info = dag.is_zero_fp([res], chk.seed, k)
             chk.decide(ok, "kernel-solves-dglap", disp.qname,
